@@ -4,8 +4,10 @@ package stats
 
 import (
 	"bytes"
+	"context"
 	"encoding/json"
 	"fmt"
+	"log/slog"
 	"net/http"
 	"net/http/httptest"
 	"path/filepath"
@@ -18,7 +20,6 @@ import (
 
 	"github.com/AdguardTeam/dnsproxy/proxy"
 	"github.com/AdguardTeam/golibs/errors"
-	"github.com/AdguardTeam/golibs/logutil/slogutil"
 	"go.etcd.io/bbolt"
 )
 
@@ -90,8 +91,19 @@ func c09Int(i int64) string {
 
 // ---- observations
 
+// Error classes of a step (bits of c09Obs.Err); the model expects 0.
+const (
+	c09ErrClose  = 1  // Close returned an error
+	c09ErrNew    = 2  // New returned an error (the history stops there)
+	c09ErrReset  = 4  // POST /control/stats_reset did not answer 200
+	c09ErrStats  = 8  // GET /control/stats did not answer 200 / undecodable
+	c09ErrLogged = 16 // the code logged at error level during the step
+	c09ErrDB     = 32 // the database file could not be read back
+)
+
 type c09Obs struct {
 	Panicked bool
+	Err      int
 	CfgMs    int64
 	CfgEn    bool
 	CurID    uint32
@@ -101,7 +113,7 @@ type c09Obs struct {
 	Series   [4][]uint64 // dns, blocked, sb, parental
 	Tops     [4][][2]int64
 	DB       [][2]int64
-	Status   int
+	ErrMsgs  []string
 }
 
 func c09Pairs(ps [][2]int64) string {
@@ -135,7 +147,7 @@ func (o *c09Obs) coq() string {
 	for i := range o.Tops {
 		tops[i] = c09Pairs(o.Tops[i])
 	}
-	return fmt.Sprintf("Obs %s %d %s %d %s %s %d %s %s %s", vfBool(o.Panicked), o.CfgMs, vfBool(o.CfgEn),
+	return fmt.Sprintf("Obs %s %d %d %s %d %s %s %d %s %s %s", vfBool(o.Panicked), o.Err, o.CfgMs, vfBool(o.CfgEn),
 		o.CurID, vfList("Z", tot), vfBool(o.Days), o.Len, vfList("list (Z * Z)", ser),
 		vfList("list (Z * Z)", tops), c09Pairs(o.DB))
 }
@@ -159,11 +171,47 @@ type c09Sim struct {
 	classes   map[string]bool
 	nAccepted int
 	rolled    bool // an effective flush/restart/clear happened after an accepted update
+
+	// Errors of the current step: nothing is fatal, everything is observed.
+	errMu   sync.Mutex
+	errBits int
+	errMsgs []string
+	dead    bool // New failed: no instance to continue with
+
+	// restart-same-hour-then-write: 1 after a restart in the same hour, 2 after
+	// an accepted update following it.
+	rsw int
 }
+
+func (m *c09Sim) fail(bit int, f string, a ...any) {
+	m.errMu.Lock()
+	defer m.errMu.Unlock()
+	m.errBits |= bit
+	if len(m.errMsgs) < 4 {
+		m.errMsgs = append(m.errMsgs, fmt.Sprintf(f, a...))
+	}
+}
+
+// c09LogHandler turns error-level log records of the code into observables.
+type c09LogHandler struct{ m *c09Sim }
+
+func (h c09LogHandler) Enabled(_ context.Context, l slog.Level) bool { return l >= slog.LevelError }
+func (h c09LogHandler) Handle(_ context.Context, r slog.Record) error {
+	if r.Message == "http error" {
+		// aghhttp.ErrorAndLog: a rejected request; the status code is observed instead.
+		return nil
+	}
+	msg := r.Message
+	r.Attrs(func(a slog.Attr) bool { msg += " " + a.Key + "=" + a.Value.String(); return true })
+	h.m.fail(c09ErrLogged, "logged: %s", msg)
+	return nil
+}
+func (h c09LogHandler) WithAttrs([]slog.Attr) slog.Handler { return h }
+func (h c09LogHandler) WithGroup(string) slog.Handler      { return h }
 
 func (m *c09Sim) conf(ms int64, en bool) Config {
 	return Config{
-		Logger:            slogutil.NewDiscardLogger(),
+		Logger:            slog.New(c09LogHandler{m}),
 		UnitID:            func() uint32 { return m.hour.Load() },
 		ConfigModified:    func() {},
 		ShouldCountClient: func([]string) bool { return true },
@@ -180,20 +228,22 @@ func c09NewSim(t testing.TB, dir string, id0 uint32, ms int64, en bool) *c09Sim 
 	m := &c09Sim{t: t, file: filepath.Join(dir, "stats.db"), routes: map[string]http.HandlerFunc{},
 		ghost: map[uint32]*[6]uint64{}, classes: map[string]bool{}}
 	m.hour.Store(id0)
+	m.unitHour, m.limH, m.enabled = id0, uint32(ms/c09MsHour), en
 	s, err := New(m.conf(ms, en))
 	if err != nil {
-		t.Fatalf("New: %v", err)
+		m.fail(c09ErrNew, "New: %v", err)
+		m.dead = true
+		return m
 	}
 	s.initWeb()
 	m.s = s
-	m.unitHour, m.limH, m.enabled = id0, uint32(ms/c09MsHour), en
 	return m
 }
 
 func (m *c09Sim) call(method, url string, body string) *httptest.ResponseRecorder {
 	h := m.routes[method+" "+url]
 	if h == nil {
-		m.t.Fatalf("no route %s %s", method, url)
+		panic("harness: no route " + method + " " + url)
 	}
 	w := httptest.NewRecorder()
 	r := httptest.NewRequest(method, url, strings.NewReader(body))
@@ -285,6 +335,9 @@ func (m *c09Sim) apply(o c09Op) (panicked bool) {
 			g[o.Res]++
 			m.nAccepted++
 			m.classes["update-accepted"] = true
+			if m.rsw == 1 {
+				m.rsw = 2
+			}
 			if m.hour.Load() != m.unitHour {
 				m.classes["update-into-stale-unit"] = true
 			}
@@ -304,6 +357,10 @@ func (m *c09Sim) apply(o c09Op) (panicked bool) {
 			default:
 				m.classes["flush-gap-beyond-window"] = true
 			}
+			if m.rsw == 2 {
+				m.classes["restart-same-hour-then-write"] = true
+			}
+			m.rsw = 0
 			m.noteRollover(o.ID)
 			m.unitHour = o.ID
 		}
@@ -311,19 +368,27 @@ func (m *c09Sim) apply(o c09Op) (panicked bool) {
 		m.hour.Store(o.ID)
 		dc := Config{}
 		m.s.WriteDiskConfig(&dc)
+		if m.rsw == 2 {
+			// The bucket of this hour is written a second time.
+			m.classes["restart-same-hour-then-write"] = true
+		}
 		if err := m.s.Close(); err != nil {
-			m.t.Fatalf("Close: %v", err)
+			m.fail(c09ErrClose, "Close: %v", err)
 		}
 		s, err := New(m.conf(dc.Limit.Milliseconds(), dc.Enabled))
 		if err != nil {
-			m.t.Fatalf("New after Close: %v", err)
+			m.fail(c09ErrNew, "New after Close: %v", err)
+			m.dead = true
+		} else {
+			s.initWeb()
+			m.s = s
 		}
-		s.initWeb()
-		m.s = s
 		if o.ID == m.unitHour {
 			m.classes["restart-same-hour"] = true
+			m.rsw = 1
 		} else {
 			m.classes["restart-later-hour"] = true
+			m.rsw = 0
 		}
 		m.noteRollover(o.ID)
 		m.unitHour = o.ID
@@ -331,8 +396,9 @@ func (m *c09Sim) apply(o c09Op) (panicked bool) {
 		m.hour.Store(o.ID)
 		w := m.call("POST", "/control/stats_reset", "")
 		if w.Code != http.StatusOK {
-			m.t.Fatalf("stats_reset: %d %s", w.Code, w.Body)
+			m.fail(c09ErrReset, "stats_reset: %d %s", w.Code, strings.TrimSpace(w.Body.String()))
 		}
+		m.rsw = 0
 		m.classes["clear"] = true
 		m.noteClear(o.ID)
 	case "setdays":
@@ -342,6 +408,7 @@ func (m *c09Sim) apply(o c09Op) (panicked bool) {
 		case w.Code != http.StatusOK:
 			m.classes["setdays-rejected"] = true
 		case o.Days == 0:
+			m.rsw = 0
 			m.classes["setdays-0-disable-and-clear"] = true
 			m.enabled = false
 			m.noteClear(o.ID)
@@ -378,19 +445,29 @@ func c09Tops(names []string, l []map[string]uint64) (ps [][2]int64) {
 // observe reads the state through GET /control/stats, loadUnits (for the
 // not-filtered counter) and the database file.
 func (m *c09Sim) observe(panicked bool) (o *c09Obs) {
-	o = &c09Obs{Panicked: panicked}
+	o = &c09Obs{Panicked: panicked, DB: [][2]int64{}}
+	for i := range o.Tops {
+		o.Tops[i] = [][2]int64{}
+	}
+	defer func() {
+		m.errMu.Lock()
+		defer m.errMu.Unlock()
+		o.Err, o.ErrMsgs = m.errBits, m.errMsgs
+		m.errBits, m.errMsgs = 0, nil
+	}()
+	if m.dead {
+		return o
+	}
 	dc := Config{}
 	m.s.WriteDiskConfig(&dc)
 	o.CfgMs, o.CfgEn = dc.Limit.Milliseconds(), dc.Enabled
 
 	w := m.call("GET", "/control/stats", "")
-	o.Status = w.Code
-	if w.Code != http.StatusOK {
-		return o
-	}
 	resp := &StatsResp{}
-	if err := json.NewDecoder(bytes.NewReader(w.Body.Bytes())).Decode(resp); err != nil {
-		m.t.Fatalf("decoding stats: %v", err)
+	if w.Code != http.StatusOK {
+		m.fail(c09ErrStats, "GET /control/stats: %d %s", w.Code, strings.TrimSpace(w.Body.String()))
+	} else if err := json.NewDecoder(bytes.NewReader(w.Body.Bytes())).Decode(resp); err != nil {
+		m.fail(c09ErrStats, "decoding stats: %v", err)
 	}
 	o.Days = resp.TimeUnits == timeUnitsDays
 	o.Len = len(resp.DNSQueries)
@@ -405,13 +482,23 @@ func (m *c09Sim) observe(panicked bool) (o *c09Obs) {
 		defer m.s.confMu.RUnlock()
 		units, curID := m.s.loadUnits(uint32(m.s.limit.Hours()))
 		o.CurID = curID
+		if units == nil {
+			// Database closed; the current unit is still there.
+			m.s.currMu.RLock()
+			o.CurID = m.s.curr.id
+			m.s.currMu.RUnlock()
+		}
 		for _, u := range units {
 			o.Totals[1] += u.NResult[RNotFiltered]
 		}
 	}()
 
-	o.DB = [][2]int64{}
-	err := m.s.db.Load().View(func(tx *bbolt.Tx) error {
+	db := m.s.db.Load()
+	if db == nil {
+		m.fail(c09ErrDB, "database is closed")
+		return o
+	}
+	err := db.View(func(tx *bbolt.Tx) error {
 		return tx.ForEach(func(name []byte, _ *bbolt.Bucket) error {
 			id, ok := unitNameToID(name)
 			if !ok || len(name) != bucketNameLen {
@@ -427,7 +514,7 @@ func (m *c09Sim) observe(panicked bool) (o *c09Obs) {
 		})
 	})
 	if err != nil {
-		m.t.Fatalf("reading db: %v", err)
+		m.fail(c09ErrDB, "reading db: %v", err)
 	}
 	sort.Slice(o.DB, func(i, j int) bool { return o.DB[i][0] < o.DB[j][0] })
 	return o
@@ -438,8 +525,8 @@ func (m *c09Sim) monitor(o *c09Obs) (ok bool, key, msg string) {
 	fail := func(k, f string, a ...any) (bool, string, string) {
 		return false, k, fmt.Sprintf(f, a...)
 	}
-	if o.Status != http.StatusOK {
-		return fail("c09-status", "GET /control/stats answered %d", o.Status)
+	if o.Err != 0 {
+		return fail("c09-op-error", "operation failed (error classes %d): %s", o.Err, strings.Join(o.ErrMsgs, "; "))
 	}
 	if o.CurID != m.unitHour {
 		return fail("c09-current-hour", "current unit is %d, expected %d", o.CurID, m.unitHour)
@@ -675,11 +762,25 @@ func c09GenHistory(r *vfRand, steps int) (id0 uint32, ms int64, en bool, ops []c
 // c09RunHistory executes one history and emits its case.
 func c09RunHistory(t *testing.T, out *vfOut, name string, id0 uint32, ms int64, en bool, ops []c09Op) {
 	m := c09NewSim(t, t.TempDir(), id0, ms, en)
-	defer func() { _ = m.s.Close() }()
+	defer func() {
+		if m.s != nil {
+			_ = m.s.Close()
+		}
+	}()
 
 	steps := make([]string, 0, len(ops))
 	ok, key, msg := true, "", ""
+	planned := ops
+	if m.dead {
+		// New failed on a fresh file: reported on the (empty) history.
+		ops = nil
+		ob := m.observe(false)
+		ok, key, msg = false, "c09-op-error", "New on a fresh file: "+strings.Join(ob.ErrMsgs, "; ")
+	}
 	for i, o := range ops {
+		if m.dead {
+			break
+		}
 		p := m.apply(o)
 		ob := m.observe(p)
 		if ok {
@@ -703,7 +804,7 @@ func c09RunHistory(t *testing.T, out *vfOut, name string, id0 uint32, ms int64, 
 		MonitorOK:  ok,
 		MonitorMsg: msg,
 		FindingKey: key,
-		Desc:       map[string]any{"name": name, "id0": id0, "limit_ms": ms, "enabled": en, "ops": ops},
+		Desc:       map[string]any{"name": name, "id0": id0, "limit_ms": ms, "enabled": en, "ops": planned},
 	})
 }
 
@@ -744,6 +845,8 @@ func c09Prelude() (hs []struct {
 	add("gap of exactly limit-1, limit, limit+1", b, 5, true, seq(all5, []c09Op{fl(b + 4)}, all5[:1], []c09Op{fl(b + 9)}, all5[:3], []c09Op{fl(b + 15)})...)
 	add("restart in the same hour and later", b, 24, true, seq(all5, []c09Op{rs(b)}, all5[:2], []c09Op{rs(b + 1)}, all5[:1],
 		[]c09Op{rs(b + 30), rs(b + 30)})...)
+	add("restart in the same hour, more updates, second restart in that hour, then the next hour", b, 24, true,
+		seq(all5, []c09Op{rs(b)}, all5, []c09Op{rs(b)}, all5[:3], []c09Op{fl(b + 1)}, all5[:1], []c09Op{rs(b + 1)}, all5[:2], []c09Op{fl(b + 2)})...)
 	add("restart drops everything below id-limit-1", b, 2, true, seq(all5, []c09Op{fl(b + 1)}, all5, []c09Op{fl(b + 2)}, all5, []c09Op{fl(b + 3), rs(b + 3), rs(b + 9)})...)
 	add("lower then raise the limit: undeleted hours reappear, deleted ones do not", b, 48, true,
 		seq(all5, []c09Op{fl(b + 1)}, all5, []c09Op{fl(b + 2)}, all5, []c09Op{fl(b + 3),
@@ -780,7 +883,7 @@ func TestVerifC09(t *testing.T) {
 	}
 
 	r := vfNewRand(out.Seed)
-	n := out.Scale(260, 4000)
+	n := out.Scale(450, 3000)
 	for i := 0; i < n; i++ {
 		rr := r.Fork(uint64(i))
 		steps := 8 + rr.Intn(out.Scale(28, 60))
